@@ -91,3 +91,12 @@ def run(ctx):
                     a, _ = ev.call_function('bip32.PubKeyNode.extended_public_key', [qchild], {'version': ver})
                     b, _ = ev.call_function('bip32.PubKeyNode.extended_public_key', [pchild], {'version': ver})
                     same_term(ob, a, b, 'serialised extended public keys agree', fi.where)
+
+    # public derivation must not depend on what was derived from the same node before (shared with C13)
+    from . import C13
+    sub = ctx.__class__('C02', ctx.tier, ctx.p, ctx.seed)
+    C13.run(sub)
+    for o in sub.obligations:
+        if o.rule == 'C13.NOREAD':
+            o.rule = 'C02.NOREAD(=C13)'
+            ctx.obligations.append(o)
